@@ -309,6 +309,8 @@ class Lexer:
             if c == ".":
                 if self.peek() == ".":  # probably a range expression delimiter
                     self.backup()
+                    if len(self.path_stack) != 1:
+                        self.error("unbalanced brackets")
                     self.path_stack[-1].stop = self.pos
                     return
 
@@ -399,6 +401,8 @@ class Lexer:
                     self.error("expected a string, index or property name")
             else:
                 self.backup()
+                if len(self.path_stack) != 1:
+                    self.error("unbalanced brackets")
                 return
 
     def accept_string(self, *, quote: str) -> None:
